@@ -1,12 +1,116 @@
 /-
-Driver operations for the Hooks model (line protocol). Core Lean only.
+Driver operations for the Hooks model (C12, line protocol). Core Lean only.
 `handle st words` returns `none` when the first word is not one of this module's operations.
+
+  hook cfg <maxTries> <scripted|prod>            new sequence: empty table, clock 0      → ok
+  hook register <authType> <header> <token> <url>  ("-" = empty string)                    → ok <report> | refused:<Code>
+  hook delete <url>                                                                       → ok | refused:<Code>
+  hook notify <url>=<outcome> …   outcome: r<code>:<body> | terr | ub<code>  (body "-" = empty)
+        every url of the table must be given an outcome (used only when the hook is called) → calls=[…] posts=[…] table=[…]
+  hook get <url>                                                                          → <report> | refused:<Code>
+  hook dump                                                                               → table=[…]
+  hook restart                                                                            → ok
 -/
+import BHS.Model.Hooks
+
 namespace Driver.Ops.Hooks
+open BHS.Model.Hooks
 
 structure S where
-  unit : Unit := ()
+  cfg : Cfg := { maxTries := 1, prod := false }
+  st : State := {}
 
-def handle (_st : S) (_ws : List String) : Option (S × String) := none
+def unesc (s : String) : String := if s == "-" then "" else s
+def esc (s : String) : String := if s == "" then "-" else s
+
+def showStatus : Status → String
+  | .none => "-"
+  | .reply c b => s!"{c}:{b}"
+  | .err => "err"
+
+def showStamp : Stamp → String
+  | .never => "never"
+  | .zero => "zero"
+  | .at k => s!"n{k}"
+
+def showErr : Err → String
+  | .urlBodyRequired => "ErrURLBodyRequired"
+  | .urlParamRequired => "ErrURLParamRequired"
+  | .refreshWebhook => "ErrRefreshWebhook"
+  | .webhookNotFound => "ErrWebhookNotFound"
+
+def showReport (r : Report) : String :=
+  s!"active={r.active} errors={r.errors} last={showStatus r.lastStatus} at={showStamp r.lastAt}"
+
+def showRow (r : Row) : String :=
+  s!"{r.url}|{esc r.tokenHeader}|{esc r.token}|{showStatus r.lastStatus}|{showStamp r.lastAt}|{r.errors}|{r.active}"
+
+def showTable (t : List Row) : String := "table=[" ++ ";".intercalate (t.map showRow) ++ "]"
+
+/-- an entry of the header map whose name is empty is not an HTTP header: the canonical
+form leaves it out (so the line does not depend on which layer drops it). -/
+def showCall (c : Call) : String :=
+  if c.name == "" then s!"{c.url}(-)" else s!"{c.url}({c.name}={c.value})"
+
+def showCalls (cs : List Call) : String := "[" ++ ",".intercalate (cs.map showCall) ++ "]"
+
+def parseOutcome (s : String) : Option Outcome :=
+  if s == "terr" then some .transportErr
+  else if s.startsWith "ub" then (s.drop 2).toString.toNat?.map .unreadableBody
+  else if s.startsWith "r" then
+    match ((s.drop 1).toString.splitOn ":") with
+    | [c, b] => c.toNat?.map (fun n => .reply n (unesc b))
+    | _ => none
+  else none
+
+def parseOuts : List String → Option (List (String × Outcome))
+  | [] => some []
+  | w :: ws =>
+    match w.splitOn "=" with
+    | [u, o] => do
+        let oc ← parseOutcome o
+        let rest ← parseOuts ws
+        pure ((u, oc) :: rest)
+    | _ => none
+
+def showReply : Reply → String
+  | .ok r => "ok " ++ showReport r
+  | .done => "ok"
+  | .refused e => "refused:" ++ showErr e
+
+def handle (s : S) : List String → Option (S × String)
+  | ["hook", "cfg", m, cl] =>
+    match m.toNat?, cl with
+    | some n, "scripted" => some ({ cfg := { maxTries := n, prod := false }, st := {} }, "ok")
+    | some n, "prod" => some ({ cfg := { maxTries := n, prod := true }, st := {} }, "ok")
+    | _, _ => some (s, "bad-op")
+  | ["hook", "register", a, h, t, u] =>
+    let k := if a.toLower == "bearer" then AuthKind.bearer else AuthKind.other
+    let r := register s.cfg s.st k (unesc h) (unesc t) (unesc u)
+    some ({ s with st := r.1 }, showReply r.2)
+  | ["hook", "delete", u] =>
+    let r := delete s.st (unesc u)
+    some ({ s with st := r.1 }, showReply r.2)
+  | "hook" :: "notify" :: ws =>
+    match parseOuts ws with
+    | none => some (s, "bad-op")
+    | some outs =>
+      if s.st.table.all (fun r => outs.any (fun p => p.1 == r.url)) then
+        let out := fun u => match outs.find? (fun p => p.1 == u) with
+          | some p => p.2
+          | none => Outcome.transportErr  -- not reached: every url of the table has an entry
+        let r := notify s.cfg s.st out
+        some ({ s with st := r.1 },
+          s!"calls={showCalls (r.2.map (·.call))} posts={showCalls (posts r.2)} {showTable r.1.table}")
+      else some (s, "bad-op missing-outcome")
+  | ["hook", "get", u] =>
+    match get s.cfg s.st (unesc u) with
+    | .ok r => some (s, showReport r)
+    | r => some (s, showReply r)
+  | ["hook", "dump"] => some (s, showTable s.st.table)
+  | ["hook", "restart"] =>
+    some ({ s with st := (step s.cfg s.st .restart).1 }, "ok")
+  | "hook" :: _ => some (s, "bad-op")
+  | _ => none
 
 end Driver.Ops.Hooks
